@@ -279,11 +279,13 @@ fn qsem(args: &[String]) {
                     Ok(b) => {
                         // all queries of this database under one deadline; a hang is attributed to the query in flight
                         let (qq, tt, fam, rowsv) = (q.clone(), t.clone(), family.clone(), rows.clone());
+                        let (rows2, lay2) = (rows.clone(), lay.clone());
+                        let mut b = b;
                         let out = lvh::util::with_plain_deadline(std::time::Duration::from_secs(900), move || {
                             let mut vio: Vec<Value> = vec![];
                             let r = match &fam[..] {
                                 "filter" => qsem::check_filters(&b, c, qq["preds"].as_array().unwrap(), tt["filters"].as_array().unwrap(), tt["filters_dev_or"].as_array().unwrap(), rowsv.len(), &mut vio),
-                                "group" => qsem::check_groups(&b, c, qq["gqueries"].as_array().unwrap(), tt["groups"].as_array().unwrap(), &mut vio),
+                                "group" => qsem::check_groups(&mut b, &|| qsem::build(&rows2, c, &lay2), c, qq["gqueries"].as_array().unwrap(), tt["groups"].as_array().unwrap(), &mut vio),
                                 _ => {
                                     let lims: Vec<i64> = qq["limits"].as_array().unwrap().iter().map(|x| x.as_i64().unwrap()).collect();
                                     let offs: Vec<i64> = qq["offsets"].as_array().unwrap().iter().map(|x| x.as_i64().unwrap()).collect();
